@@ -929,7 +929,7 @@ class SearchSim:
                     raise SimUnknown(c, "capacity query without a date")
                 self.probes.append(d.off)
                 import math
-                return 1.0 if math.floor(d.off + 1e-9) in self.avail else 0.0
+                return 0.25 if math.floor(d.off + 1e-9) in self.avail else 0.0      # a small positive capacity is positive
             if isinstance(fn.value, ast.Name) and (env.get(fn.value.id) is _SELF or fn.value.id in self.prog.classes) and f.cls:
                 g = self.prog.find_method(f.cls, unmangle(fn.attr))
                 if g is not None and g.kind in ('method', 'static') and fn.attr.startswith('_'):
